@@ -1025,10 +1025,11 @@ class StructOf(DataType):
             for key, val in value.items():
                 if val is not None:  # goodie: allow None instead of missing key
                     result[key] = self.members[key](val)
-            return ImmutableDict(result)
         except Exception as e:
             errcls = RangeError if isinstance(e, RangeError) else WrongTypeError
             raise errcls('can not convert struct element %s' % key) from e
+        self.check_mandatory(result)
+        return ImmutableDict(result)
 
     def validate(self, value, previous=None):
         self.check_type(value, True)
@@ -1037,10 +1038,17 @@ class StructOf(DataType):
             for key, val in value.items():
                 if val is not None:  # goodie: allow None instead of missing key
                     result[key] = self.members[key].validate(val)
-            return ImmutableDict(result)
         except Exception as e:
             errcls = RangeError if isinstance(e, RangeError) else WrongTypeError
             raise errcls('struct element %s is invalid' % key) from e
+        self.check_mandatory(result)
+        return ImmutableDict(result)
+
+    def check_mandatory(self, result):
+        """a member given as None counts as missing: this is allowed for optional members only"""
+        missing = set(self.members) - set(self.optional) - set(result)
+        if missing:
+            raise WrongTypeError(f"missing struct elements: {', '.join(missing)}")
 
     def check_type(self, value, allow_optional=False):
         if not isinstance(value, Mapping):
